@@ -154,15 +154,18 @@ func TestC20(t *testing.T) {
 		}
 		// 1a''. documents of 0.3 .. 48 MB made of sibling containers that each hold one escaped
 		// string (the string scratch of pooled child readers at every document size)
-		if e.enumStage("escaped-siblings", "8 variants (sibling object/array, escape in value/key, outer array/object) x (siblings, padding) in {(2000,120), (6000,500), (300,10000); thorough also (6000,2000), (3000,16000)} x {ReadValue, pkg.ReadValue}", true) {
+		if e.enumStage("escaped-siblings", "32 variants (sibling object/array, escape in value/key, outer array/object, escaped string 0..3 container levels below the sibling) x (siblings, padding) in {(2000,120), (6000,500), (300,10000); thorough also (6000,2000), (3000,16000)} x {ReadValue, pkg.ReadValue}", true) {
 			sizes := [][2]int64{{2000, 120}, {6000, 500}, {300, 10000}}
 			if e.cfg.Thorough() {
 				sizes = append(sizes, [2]int64{6000, 2000}, [2]int64{3000, 16000})
 			}
 			idx := 0
 		es:
-			for v := int64(0); v < 8; v++ {
+			for v := int64(0); v < 32; v++ {
 				for _, sz := range sizes {
+					if v >= 8 && sz != sizes[1] && !e.cfg.Thorough() {
+						continue // the deeper placements of the escaped string: one size in quick
+					}
 					for _, fn := range []string{"ReadValue", "pkg.ReadValue"} {
 						idx++
 						if !e.cfg.Mine(idx) {
